@@ -346,6 +346,15 @@ type cutProxy struct {
 	mu     sync.Mutex
 	conns  []net.Conn
 	closed bool
+	// cutAfter > 0: the next connection is reset once that many bytes have been relayed upstream
+	// on it (a cut in the middle of a burst); one-shot
+	cutAfter int64
+}
+
+func (p *cutProxy) armCutAfter(n int64) {
+	p.mu.Lock()
+	p.cutAfter = n
+	p.mu.Unlock()
 }
 
 func newCutProxy(target string) (*cutProxy, error) {
@@ -368,7 +377,37 @@ func newCutProxy(target string) (*cutProxy, error) {
 			p.mu.Lock()
 			p.conns = append(p.conns, c, u)
 			p.mu.Unlock()
-			go func() { _, _ = io.Copy(u, c); u.Close(); c.Close() }()
+			p.mu.Lock()
+			limit := p.cutAfter
+			p.cutAfter = 0
+			p.mu.Unlock()
+			go func() {
+				buf := make([]byte, 2048)
+				var relayed int64
+				for {
+					n, err := c.Read(buf)
+					if n > 0 {
+						if _, werr := u.Write(buf[:n]); werr != nil {
+							break
+						}
+						relayed += int64(n)
+						if limit > 0 && relayed >= limit {
+							// reset, not a graceful close: the engine's next write fails
+							for _, x := range []net.Conn{c, u} {
+								if tc, ok := x.(*net.TCPConn); ok {
+									_ = tc.SetLinger(0)
+								}
+							}
+							break
+						}
+					}
+					if err != nil {
+						break
+					}
+				}
+				u.Close()
+				c.Close()
+			}()
 			go func() { _, _ = io.Copy(c, u); u.Close(); c.Close() }()
 		}
 	}()
@@ -395,6 +434,17 @@ func freePort() int {
 	}
 	defer l.Close()
 	return l.Addr().(*net.TCPAddr).Port
+}
+
+// stopBounded stops an engine but does not wait for it for ever: a wedged engine must not keep
+// the verdict (already computed) from being reported.
+func stopBounded(stop func()) {
+	done := make(chan struct{})
+	go func() { stop(); close(done) }()
+	select {
+	case <-done:
+	case <-time.After(10 * time.Second):
+	}
 }
 
 func socketRun(t *testing.T, run int, file bool) (violation, inconclusive, detail string) {
@@ -425,7 +475,7 @@ func socketRun(t *testing.T, run int, file bool) (violation, inconclusive, detai
 	if err := acc.Start(); err != nil {
 		return "", "acceptor-start", err.Error()
 	}
-	defer acc.Stop()
+	defer stopBounded(acc.Stop)
 	ini, err := quickfix.NewInitiator(appA, sfA, setA, quickfix.NewNullLogFactory())
 	if err != nil {
 		return "", "initiator-setup", err.Error()
@@ -433,7 +483,7 @@ func socketRun(t *testing.T, run int, file bool) (violation, inconclusive, detai
 	if err := ini.Start(); err != nil {
 		return "", "initiator-start", err.Error()
 	}
-	defer ini.Stop()
+	defer stopBounded(ini.Stop)
 	var accA, accB []string
 	sendFrom := func(from quickfix.SessionID, name string, n *int, list *[]string) {
 		*n++
@@ -480,18 +530,42 @@ func socketRun(t *testing.T, run int, file bool) (violation, inconclusive, detai
 		}
 		time.Sleep(time.Duration(1200+200*(round%2)) * time.Millisecond)
 	}
-	// the link stays up now: wait until both sides have everything (bounded)
-	deadline := time.Now().Add(25 * time.Second)
+	if run%4 == 0 {
+		// a large backlog built up while the link is down, and a cut inside the replay burst that
+		// follows the reconnect (the writer sees a write error in the middle of a blocking burst)
+		proxy.armCutAfter(6000) // the next connection is reset ~6 kB into what A sends on it
+		proxy.cut()
+		for i := 0; i < 1500; i++ {
+			sendFrom(idA, "A", &nA, &accA)
+		}
+		time.Sleep(2500 * time.Millisecond) // reconnect, Logon, ResendRequest, burst, reset inside it, reconnect
+	}
+	// the link stays up now: wait until both sides have everything (bounded). A control timer
+	// tells a wedged engine (no progress although this process runs on time) from a stalled machine.
+	deadline := time.Now().Add(40 * time.Second)
 	get := func(a *realApp) []string {
 		a.mu.Lock()
 		defer a.mu.Unlock()
 		return append([]string(nil), a.recv...)
 	}
+	lastProgress, lastCount, worstOversleep, stuck := time.Now(), -1, time.Duration(0), false
 	for time.Now().Before(deadline) {
-		if len(get(appB)) >= len(accA) && len(get(appA)) >= len(accB) {
+		nb, na := len(get(appB)), len(get(appA))
+		if nb >= len(accA) && na >= len(accB) {
 			break
 		}
+		if nb+na != lastCount {
+			lastCount, lastProgress = nb+na, time.Now()
+		}
+		if time.Since(lastProgress) > 15*time.Second {
+			stuck = true
+			break
+		}
+		a := time.Now()
 		time.Sleep(50 * time.Millisecond)
+		if over := time.Since(a) - 50*time.Millisecond; over > worstOversleep {
+			worstOversleep = over
+		}
 	}
 	time.Sleep(300 * time.Millisecond)
 	gotB, gotA := get(appB), get(appA)
@@ -508,8 +582,10 @@ func socketRun(t *testing.T, run int, file bool) (violation, inconclusive, detai
 	for _, r := range []string{cmp(gotB, accA, "B"), cmp(gotA, accB, "A")} {
 		switch {
 		case r == "":
+		case strings.HasPrefix(r, "late:") && stuck && worstOversleep < 500*time.Millisecond:
+			violation = fmt.Sprintf("no message delivered for 15 s with the link up although messages are outstanding (%s; this process's own timers were at most %v late)", r, worstOversleep)
 		case strings.HasPrefix(r, "late:"):
-			inconclusive = "still-catching-up-after-25s"
+			inconclusive = "still-catching-up-at-the-deadline"
 		default:
 			violation = r
 		}
